@@ -4,10 +4,11 @@ namespace DVP.Findings.C15
 open DV DV.Solvers
 
 /-- on the `hybrj` path success is reported with a residual of 1/2 when only the trust region became
-small, the handed-back "precision" is the step norm, and the consumer accepts -/
+small; since fix P32 the handed-back "precision" is that residual, so the consumer in
+`RungeKuttaIntegrator.step` no longer accepts (before the fix it was the step norm 1e-6 and the consumer accepted) -/
 theorem hybrj_success_without_residual :
     let h : Hybrj Rat := { resBelowTol := false, stepBelowXtol := false, trustBelowXtol := true, dxn := 1/1000000, resNorm := 1/2 }
     let o := front (1/1000000000 : Rat) .hybrj { success := false, noImprovement := false, resNorm := 1 } h { success := false, resNorm := 1 }
-    o.success = true ∧ o.prec = 1/1000000 ∧ consumerAccepts o (1/1000) = true := by decide +kernel
+    o.success = true ∧ o.prec = 1/2 ∧ consumerAccepts o (1/1000) = false := by decide +kernel
 
 end DVP.Findings.C15
